@@ -258,6 +258,7 @@ class Pipelines(Harness):
         # has the same width, which the streamed mean requires): streamed == in memory
         for wch in ([[0, 2], [2, 3]],) + (([[0, 3]], [[0, 1], [1, 3]]) if tier == "thorough" else ()):
             out.append(dict(genome="g2", chroms=[0, 0, 1], chunks=wch, track_chunks=split, what="values", mean=True))
+        out.append(dict(genome="g2", chroms=[0, 0, 1], chunks=[[0, 2], [2, 3]], track_chunks=split, what="values", mean=True, joint=True))
         return out
 
     def inputs(self, skel, V):
@@ -319,7 +320,12 @@ class Pipelines(Harness):
                 rs = compute(mk_track()[mk_win()].sum(axis=-1))
                 res["rowsum_streamed"] = ctx.lst(rs)
             if skel.get("mean"):
-                sm = compute(mk_track()[mk_win()].mean(axis=0))
+                if skel.get("joint"):
+                    # the mean evaluated in ONE compute call together with a sum over a second stream of the same data
+                    sm, joint_total = compute((mk_track()[mk_win()].mean(axis=0), ctx.np.sum(mk_track()[mk_win()])))
+                    res["joint_total"] = ctx.lst(joint_total)
+                else:
+                    sm = compute(mk_track()[mk_win()].mean(axis=0))
                 if hasattr(sm, "starts") and hasattr(sm, "values"):
                     # run-length result: expanded here run by run (the library's own expansion goes through the bit patterns of the doubles)
                     vals, st_, en_ = ctx.lst(sm.values), ctx.lst(sm.starts), ctx.lst(sm.ends)
